@@ -2033,6 +2033,11 @@ func (s *SelectStatement) rewriteWithoutTimeDimensions() string {
 		}
 	})
 
+	// The result is joined to the new time bounds with AND, which binds
+	// tighter than a top-level OR.
+	if be, ok := n.(*BinaryExpr); ok && be.Op == OR {
+		return "(" + n.String() + ")"
+	}
 	return n.String()
 }
 
